@@ -515,9 +515,9 @@ func TestVerif_C32(t *testing.T) {
 			exec  func(*vx.Ctx, *vx.W, c32Case)
 		}
 		parts := []part{
-			{"recv", []string{"uni", "bidi"}, recvOps, vx.Pick(c, 4, 5), c32RecvGen{m: c32RecvModel{fs: -1}}, c32ExecRecv},
 			{"send", []string{"uni"}, sendOps, vx.Pick(c, 5, 6), c32SendGen{}, c32ExecSend},
 			{"send-bidi", []string{"bidi", "accepted"}, sendOps, vx.Pick(c, 4, 5), c32SendGen{}, c32ExecSend},
+			{"recv", []string{"uni", "bidi"}, recvOps, vx.Pick(c, 5, 6), c32RecvGen{m: c32RecvModel{fs: -1}}, c32ExecRecv},
 		}
 		for _, p := range parts {
 			vx.Enumerate(c, p.name, vx.Opts{Serial: true, Crumb: true}, func(yield0 func(c32Case) bool) {
